@@ -63,6 +63,19 @@ pub fn atan2(mut y: i32, mut x: i32) -> i32 {
     (r ^ k) as _
 }
 
+/// Verification hook: the private fixed-point division helper.
+#[cfg(idsp_verif)]
+pub fn verif_divi(y: u32, x: u32) -> u32 {
+    divi(y, x)
+}
+
+/// Verification hook: the private arctangent polynomial.
+#[cfg(idsp_verif)]
+pub fn verif_atani(x: u32) -> u32 {
+    atani(x)
+}
+
+
 #[cfg(test)]
 mod tests {
     use super::*;
